@@ -659,18 +659,18 @@ Definition cmd_handle (c : acmd) : handle :=
   match c with ACreate h _ _ _ => h | ADestroy h => h | ADestroyNow h => h | ARemove h _ => h | AAssign h _ _ => h end.
 
 (* the mask loop of applyCommandPack (entity_manager.cpp:305-331): (state, final mask, finished) *)
-Fixpoint pack_loop (create : bool) (h : handle) (cs : list acmd) (s : mst) (fm : mask) : res (mst * mask * bool) :=
+Fixpoint pack_loop (create : bool) (h : handle) (cs : list acmd) (s : mst) (fm am : mask) : res (mst * mask * mask * bool) :=
   match cs with
-  | [] => Ok (s, fm, false)
+  | [] => Ok (s, fm, am, false)
   | c :: t =>
     match c with
     | ADestroyNow _ =>
-      if create then Ok (release_id s h, fm, true)
-      else do s1 <- destroy_now_unlocked s h; Ok (s1, fm, true)
+      if create then Ok (release_id s h, fm, am, true)
+      else do s1 <- destroy_now_unlocked s h; Ok (s1, fm, am, true)
     | ACreate _ _ _ _ => Err (ThrowInNoexcept 1)
-    | ADestroy h' => pack_loop create h t (set_marked s (set_insert (marked s) h')) fm
-    | ARemove _ c' => pack_loop create h t s (mdel fm c')
-    | AAssign _ c' _ => pack_loop create h t s (madd fm c')
+    | ADestroy h' => pack_loop create h t (set_marked s (set_insert (marked s) h')) fm am
+    | ARemove _ c' => pack_loop create h t s (mdel fm c') am
+    | AAssign _ c' _ => pack_loop create h t s (madd fm c') (madd am c')
     end
   end.
 
@@ -697,14 +697,15 @@ Definition apply_pack (tid : nat) (s : mst) (p : list acmd) : res mst :=
     match r0 with
     | None => Ok s
     | Some (s2, initial, sh, create, body) =>
-      do r <- pack_loop create h body s2 initial;
-      let '(s3, final, fin) := r in
+      do r <- pack_loop create h body s2 initial 0;
+      let '(s3, final, assigned, fin) := r in
       if fin then Ok s3 else
       do ra <- get_arch s3 final sh;
       let '(s4, ai) := ra in
-      do s5 <- (if create then arch_insert s4 ai h (minverse initial)
+      do s5 <- (if create then arch_insert s4 ai h assigned
                 else if negb (initial =? final) then
                   do la <- loc_arch s4 h;
+                  if Nat.eqb (fst la) ai then Ok s4 else
                   external_move s4 ai h (fst la) (snd la) final
                 else Ok s4);
       do l <- nth_res (locs s5) (N.to_nat (fst h));
@@ -781,7 +782,8 @@ Inductive op :=
 | OHas (h : handle) (c : nat)
 | ODep (c : nat) (m : mask)
 | OVerChunk (n : nat)
-| OChunkFn (mn mx : nat) (m : mask).
+| OChunkFn (mn mx : nat) (m : mask)
+| OTeardown.
 
 Inductive out := RNone | RHandle (h : handle) | RBool (b : bool) | RCell (present : bool) (v : cell) | RNullHandle.
 
@@ -955,4 +957,17 @@ Definition step (s : mst) (o : op) : res (mst * out) :=
   | ODep c m => do s1 <- add_dependency s c m; Ok (s1, RNone)
   | OVerChunk n => Ok (set_chunkcfg s n (chunk_fns s), RNone)
   | OChunkFn mn mx m => Ok (set_chunkcfg s (def_chunk s) (chunk_fns s ++ [(mn, mx, m)]), RNone)
+  | OTeardown =>
+    (* ~World: archetypes_ first (deleter = clearArchetype), later the command buffers (~TemporalStorage) *)
+    do s1 <- fold_res clear_archetype (seq 0 (length (archs s))) s;
+    do s2 <- fold_res (fun st (x : nat * list acmd) =>
+        let '(tid, b) := x in
+        fold_res (fun st' (c : acmd) =>
+            match c with
+            | AAssign _ cid n =>
+              do inf <- info_of st' cid;
+              Ok (if ci_destroy inf && ci_ev inf then emit st' (EvD (ci_pal inf) (PTmp (epoch st' * 64 + tid) n)) else st')
+            | _ => Ok st'
+            end) b st) (combine (seq 0 (length (bufs s1))) (bufs s1)) s1;
+    Ok (s2, RNone)
   end.
